@@ -18,6 +18,8 @@ import vlib
 
 CONST = """CONSTANTS
   N = %(N)d
+  FL = %(FL)d
+  ForkFrom = %(forkfrom)d
   BodyCode = %(body)d
   Peers = {%(peers)s}
   Honest = {%(honest)s}
@@ -60,7 +62,7 @@ def peers(n):
 
 
 def consts(c, **kw):
-    d = dict(N=c["N"], body=c["body"], peers=peers(c["peers"]), honest="", maxc=c["maxc"], faults=99, W=c["W"], maxp=c.get("maxp", 2048), ops=0,
+    d = dict(N=c["N"], FL=c.get("FL", 0), forkfrom=c.get("forkfrom", 1), body=c["body"], peers=peers(c["peers"]), honest="", maxc=c["maxc"], faults=99, W=c["W"], maxp=c.get("maxp", 2048), ops=0,
              gen="none", alpha="full", noops="FALSE")
     d.update(kw)
     return CONST % d
@@ -68,18 +70,19 @@ def consts(c, **kw):
 
 # chain configurations: body code digit k from the right = body id of header k (0 = empty block; equal digits = equal bodies)
 # maxp = maxResultsProcess scaled below the window, so that more results can be complete than one Results call hands out
-CFG_A = dict(name="A", N=5, body=31201, W=3, maxp=2, peers=2, maxc=2)     # <<1,0,2,1,3>>
-CFG_B = dict(name="B", N=4, body=2011, W=2, maxp=1, peers=3, maxc=2)      # <<1,1,0,2>>  (two identical bodies in a row, tight window)
-CFG_C = dict(name="C", N=6, body=102304, W=4, maxp=2, peers=2, maxc=3)    # <<4,0,3,2,0,1>>
+# FL/forkfrom: a competing fork of FL headers (ids N+1..) with numbers forkfrom.. (their body ids are the digits after the N-th)
+CFG_A = dict(name="A", N=5, FL=2, forkfrom=3, body=4531201, W=3, maxp=2, peers=2, maxc=2)   # main <<1,0,2,1,3>>, fork <<5,4>> at numbers 3,4
+CFG_B = dict(name="B", N=4, FL=2, forkfrom=2, body=432011, W=2, maxp=1, peers=3, maxc=2)     # main <<1,1,0,2>> (two identical bodies in a row, tight window), fork <<3,4>> at 2,3
+CFG_C = dict(name="C", N=6, FL=2, forkfrom=2, body=56102304, W=4, maxp=2, peers=2, maxc=3)  # main <<4,0,3,2,0,1>>, fork <<6,5>> at 2,3
 
 
 def body_list(c):
-    return [(c["body"] // 10 ** k) % 10 for k in range(c["N"])]
+    return [(c["body"] // 10 ** k) % 10 for k in range(c["N"] + c.get("FL", 0))]
 
 
 def cfg_of_init(init):
     body = sum(b * 10 ** k for k, b in enumerate(init["body"]))
-    return dict(name="R", N=init["n"], body=body, W=init["w"], maxp=init.get("maxp", 2048), peers=max(2, len(init.get("peers", []))),
+    return dict(name="R", N=init["n"], FL=init.get("fl", 0), forkfrom=init.get("forkfrom", 1), body=body, W=init["w"], maxp=init.get("maxp", 2048), peers=max(2, len(init.get("peers", []))),
                 maxc=init.get("maxc", 2))
 
 
@@ -110,9 +113,9 @@ def design(ctx):
         if getattr(m, "zero_actions", None):
             ctx.cov["coverage_zero_actions"] = sorted(set(ctx.cov["coverage_zero_actions"]) | set(m.zero_actions))
     # liveness, unconstrained small configuration: p1 is honest, three faults
-    lcs = [dict(name="L", N=4, body=1201, W=2, maxp=1, peers=2, maxc=2)]
+    lcs = [dict(name="L", N=4, FL=1, forkfrom=2, body=31201, W=2, maxp=1, peers=2, maxc=2)]
     if not quick:
-        lcs.append(dict(name="L3", N=4, body=1201, W=3, maxp=2, peers=3, maxc=2))
+        lcs.append(dict(name="L3", N=4, FL=1, forkfrom=2, body=31201, W=3, maxp=2, peers=3, maxc=2))
     for lc in lcs:
         lv = ctx.tlc_must("DlQueue", L_CFG + consts(lc, honest='"p1"', faults=3), name="L_live_%s" % lc["name"], timeout=1500)
         violated = violated or lv.violated
@@ -220,7 +223,9 @@ def run(ctx):
     ctx.cov["rule"] = ("behaviours = stored witnesses + every behaviour of the small alphabet to the G1 depth + simulated behaviours of "
                        "the full alphabet, each followed by the honest-peer completion loop on the real queue; non-trivial = a peer "
                        "that holds a request fails it (bad delivery, cancel, expiry, revocation); distinct by JSON of the action sequence")
-    ctx.assumptions += ["full sync (one component per block); headers are offered to Schedule in chain order, as processHeaders does",
+    ctx.assumptions += ["full sync (one component per block); Schedule is offered in-order chunks of the main chain and, in the full alphabet, chunks with a "
+                        "non-linking / wrongly numbered header in the middle, a competing fork starting below the queued prefix, and a chunk beyond the head; "
+                        "the very first batch always starts at the origin (as processHeaders does)",
                         "CancelBodies is only applied to the request a peer currently holds (fetchParts never calls it otherwise)",
                         "result window of 2-4 slots and a Results batch limit of 1-2 items (blockCacheItems and maxResultsProcess are variables, scaled by the verif constructor); the memory-based throttle is not reachable with chains this small",
                         "expiry is made deterministic by ageing fetchRequest.Time of the chosen request by two hours (timeout one hour)",
@@ -228,8 +233,8 @@ def run(ctx):
     quick = ctx.quick
     mviol = design(ctx)
     wit = witnesses()
-    plan = [(CFG_A, dict(g1_depth=7 if quick else 8, g1_noop_depth=4 if quick else 5, sim_num=150 if quick else 1500,
-                         sim_depth=30, sim_keep=1500 if quick else 20000)),
+    plan = [(CFG_A, dict(g1_depth=6 if quick else 8, g1_noop_depth=4 if quick else 5, sim_num=250 if quick else 1500,
+                         sim_depth=30, sim_keep=2500 if quick else 20000)),
             (CFG_B, dict(g1_depth=0 if quick else 7, g1_noop_depth=0, sim_num=100 if quick else 1000, sim_depth=26,
                          sim_keep=1000 if quick else 15000))]
     if not quick:
